@@ -140,7 +140,10 @@ func (f *frame) instr(in ssa.Instruction, st *bstate) {
 		f.assume(st, fmt.Sprintf("(and (>= %s %d) (< %s %d))", tv.Tuple[0].T, lo, tv.Tuple[0].T, n))
 		f.selectAfter(x, tv.Tuple[0], selPres, st)
 	case *ssa.MakeChan:
-		f.setVal(x, f.freshRef(st, x.Name(), x.Type()))
+		r := f.freshRef(st, x.Name(), x.Type())
+		// the capacity of a channel is fixed when it is made (chancap in contracts)
+		f.assume(st, eq("(chan_cap "+r.T+")", f.toInt(f.val(x.Size))))
+		f.setVal(x, r)
 	case *ssa.MakeClosure:
 		f.makeClosure(x, st)
 	case *ssa.MakeInterface:
